@@ -78,7 +78,7 @@ class C02(Sim):
     expected_probes = [
         "nan_row_after_boundary_lock_previous", "nan_first_row_after_restart_with_default", "out_of_range_row_lock_range",
         "one_row_segment", "matrix_setter_single_input", "all_nan_segment", "parity_event", "hybrid_engine",
-        "output_variable_in_antecedent", "vector_setter", "cascade_changed_a_row", "configuration_changed_between_segments", "scalar0d_setter", "mixed_family_output_with_disjoint_rules", "shipped_example_engine", "output_matrix_compared", "input_arrays_refilled_in_place", "one_row_as_0d_arrays", "strided_view_batch", "readonly_batch", "integer_typed_batch",
+        "output_variable_in_antecedent", "vector_setter", "cascade_changed_a_row", "configuration_changed_between_segments", "scalar0d_setter", "mixed_family_output_with_disjoint_rules", "shipped_example_engine", "output_matrix_compared", "input_arrays_refilled_in_place", "one_row_as_0d_arrays", "strided_view_batch", "readonly_batch", "integer_typed_batch", "float32_batch",
     ]
 
     def prepare(self) -> None:
@@ -128,6 +128,8 @@ class C02(Sim):
                     seg["layout"] = "view"
                 elif lay < 0.16:
                     seg["layout"] = "readonly"
+                elif lay < 0.24:
+                    seg["layout"] = "float32"
                 ops.append(seg)
             elif r < 0.82:
                 if rng.random() < 0.5:
@@ -265,6 +267,10 @@ class C02(Sim):
                 continue
             setter = op["setter"]
             arr = np.array(rows, dtype=float).reshape(k, n_in)
+            if op.get("layout") == "float32":
+                # the batch arrives as float32 (sensor data, files): both replicas get the float32-rounded values, the
+                # batch replica as float32 arrays, the row replica as Python floats
+                arr = arr.astype(np.float32).astype(np.float64)
             if setter == "vector" and not (n_in == 1 or k == 1):
                 setter = "matrix"
             if setter == "scalar0d":
@@ -317,6 +323,9 @@ class C02(Sim):
                             big[:, 2 * c + 1] = arr[:, c]
                         held = [big[:, 2 * c + 1] for c in range(n_in)]
                         st.hit("probes.strided_view_batch")
+                    elif op.get("layout") == "float32":
+                        held = [h.astype(np.float32) for h in held]
+                        st.hit("probes.float32_batch")
                     elif op.get("layout") == "readonly":
                         for h in held:
                             h.setflags(write=False)  # e.g. memory-mapped or broadcast data
@@ -324,7 +333,7 @@ class C02(Sim):
                     for c, iv in enumerate(A.input_variables):
                         iv.value = held[c]
                 elif setter == "matrix":
-                    A.input_values = arr.copy()
+                    A.input_values = arr.astype(np.float32) if op.get("layout") == "float32" else arr.copy()
                     if n_in == 1:
                         st.hit("probes.matrix_setter_single_input")
                 elif setter == "scalar0d":
